@@ -114,15 +114,19 @@ def cases(tier, seed):
       horizon = (2000, 500, 500, 20000, 500, 2000, 500, 500)[(i * 3 + i // 8 + i // 40) % 8]  # mixes with integrator / timestep
     out.append({"id": f"{kind}{seed}_{i}", "kind": kind, "seed": seed * 100000 + i, "integrator": integ, "timestep": ts, "horizon": horizon, "underflow": int(i % 4 == 1), "weight": max(1, horizon // 200) * (2 if integ == "RK4" else 1)})
   # 'still' family: non-rotating bodies with non-unit quaternions, re-injected every round
-  ns = 16 if tier == "quick" else 64
+  # Scheduling: the runner hands each worker its cases heaviest-declared-weight first and stops starting cases when the
+  # budget expires. A still case costs about as much as a 200-step run, but is declared just above every other weight so
+  # that it runs first in every worker and is never what an expired budget drops; 16 / 48 cases divide the usual worker
+  # counts (2,3,4,6,8,12,16 for 48), so every worker gets the same number and the balance of the rest is unaffected.
+  ns = 16 if tier == "quick" else 48
   still = []
   for i in range(ns):
     integ = INTEGRATORS[i % 4]
     ts = TIMESTEPS[(i // 4 + i) % 5]
     rounds, steps = (6, 3) if tier == "quick" else (20, 3)
     tail = 0 if tier == "quick" else (300 if i % 4 == i // 4 % 4 else 0)
-    still.append({"id": f"still{seed}_{i}", "kind": "still", "seed": seed * 100000 + 50000 + i, "integrator": integ, "timestep": ts, "rounds": rounds, "steps": steps, "tail": tail, "nocontact": int(i % 3 == 0), "weight": 1})
-  # interleave so that a budget that expires early does not drop one family entirely
+    still.append({"id": f"still{seed}_{i}", "kind": "still", "seed": seed * 100000 + 50000 + i, "integrator": integ, "timestep": ts, "rounds": rounds, "steps": steps, "tail": tail, "nocontact": int(i % 3 == 0), "weight": 3 if tier == "quick" else 201})
+  # interleave, so that --limit N (first N cases) sees both families
   merged = []
   for i in range(max(len(out), len(still))):
     if i < len(still):
